@@ -16,6 +16,7 @@
 //   min_x_all | min_x <k> <i…>            solver entry only
 //   reset                                 same input again (solver entry: reset(...); adj: set(copy))
 //   set_alg <alg>                         adj entry only
+//   state | envinfo                       env solver entry: private state / input facts through GamaVerifProbe
 //   fresh <query…>                        the query on a brand-new object with the same configuration
 //                                         (current algorithm and current regularisation list)
 // output: vec <hex…> | val <hex> | int <n> | flag <0|1> | ok | throw <kind> | bad-op
@@ -32,6 +33,37 @@
 
 using namespace GNU_gama;
 typedef GNU_gama::Exception::matvec MVE;
+
+// read-only access to private state (friend under -DGAMA_VERIF, see /verif/hooks.json)
+struct GamaVerifProbe {
+  typedef AdjEnvelope<double, int, MVE> Env;
+  // "st <stage> <iqbb> <ires> <iq0> <ix> minx <none | k i1..ik> keys <key:buf ...>"
+  static void env_state(const Env& e, std::ostream& out) {
+    out << "st " << e.stage << " " << e.init_q_bb << " " << e.init_residuals << " " << e.init_q0 << " " << e.init_x
+        << " minx";
+    if (e.min_x_list == nullptr) out << " none";
+    else { out << " " << e.min_x_size; for (int i = 0; i < e.min_x_size; i++) out << " " << e.min_x_list[i]; }
+    out << " keys";
+    for (size_t i = 0; i < e.indbuf.active; i++) out << " " << e.indbuf.key_[i] << ":" << e.indbuf.buf_[i];
+    out << "\n";
+  }
+  // "envinfo <n> <nullity> invp <n ints> width <n ints> rows <m> {<k> c1..ck}"  (after solve_x0)
+  static void env_info(Env& e, std::ostream& out) {
+    e.defect();    // forces solve_x0
+    const int n = e.parameters;
+    out << "envinfo " << n << " " << e.nullity << " invp";
+    for (int i = 1; i <= n; i++) out << " " << e.ordering.invp(i);
+    out << " width";
+    for (int i = 1; i <= n; i++) out << " " << int(e.envelope.end(i) - e.envelope.begin(i));
+    const SparseMatrix<>* dm = e.design_matrix;
+    out << " rows " << dm->rows();
+    for (int r = 1; r <= dm->rows(); r++) {
+      out << " " << dm->size(r);
+      for (int* c = dm->ibegin(r); c != dm->iend(r); ++c) out << " " << *c;
+    }
+    out << "\n";
+  }
+};
 typedef AdjBase<double, int, MVE> Base;
 typedef AdjBaseFull<double, int, MVE> Full;
 typedef AdjBaseSparse<double, int, MVE, AdjInputData> Sparse;
@@ -160,12 +192,12 @@ static bool query(Obj& o, const std::vector<std::string>& t) {
       if (q == "x") out_vec(s->unknowns());
       else if (q == "r") out_vec(s->residuals());
       else if (q == "rtr") out_val(s->sum_of_squares());
-      else if (q == "defect") std::cout << "int " << s->defect() << "\n";
+      else if (q == "defect") { int d = s->defect(); std::cout << "int " << d << "\n"; }
       else if (q == "qxx") out_val(s->q_xx(I(1), I(2)));
       else if (q == "q0xx") out_val(s->q0_xx(I(1), I(2)));
       else if (q == "qbb") out_val(s->q_bb(I(1), I(2)));
       else if (q == "qbx") out_val(s->q_bx(I(1), I(2)));
-      else if (q == "lindep") std::cout << "flag " << (s->lindep(I(1)) ? 1 : 0) << "\n";
+      else if (q == "lindep") { bool f = s->lindep(I(1)); std::cout << "flag " << (f ? 1 : 0) << "\n"; }
       else if (q == "cond") out_val(s->cond());
       else if (q == "min_x_all") { o.rmode = 1; o.rlist.clear(); s->min_x(); std::cout << "ok\n"; }
       else if (q == "min_x") {
@@ -179,10 +211,10 @@ static bool query(Obj& o, const std::vector<std::string>& t) {
       Adj* a = o.adj.get();
       if (q == "x") out_vec(a->x());
       else if (q == "r") out_vec(a->r());
-      else if (q == "rtr") { a->x(); out_val(a->rtr()); }
-      else if (q == "defect") { a->x(); std::cout << "int " << a->defect() << "\n"; }
-      else if (q == "qxx") { a->x(); out_val(a->q_xx(I(1), I(2))); }
-      else if (q == "qbb") { a->x(); out_val(a->q_bb(I(1), I(2))); }
+      else if (q == "rtr") out_val(a->rtr());
+      else if (q == "defect") { int d = a->defect(); std::cout << "int " << d << "\n"; }
+      else if (q == "qxx") out_val(a->q_xx(I(1), I(2)));
+      else if (q == "qbb") out_val(a->q_bb(I(1), I(2)));
       else if (q == "set_alg") { Adj::algorithm en; if (!Obj::alg_enum(t.at(1), en)) return false; o.alg = t[1]; a->set_algorithm(en); std::cout << "ok\n"; }
       else if (q == "reset") { a->set(o.P->make(true)); std::cout << "ok\n"; }
       else return false;
@@ -229,6 +261,18 @@ int main() {
         if (!F.create(&Pc, O->alg, O->entry)) { std::cout << "bad-op\n"; continue; }
         std::vector<std::string> q(t.begin() + 1, t.end());
         if (q.empty() || !query(F, q)) std::cout << "bad-op\n";
+        continue;
+      }
+      if (t[0] == "state" || t[0] == "envinfo") {
+        auto* env = O->entry == "solver" ? dynamic_cast<GamaVerifProbe::Env*>(O->ls.get()) : nullptr;
+        if (!env) { std::cout << "bad-op\n"; continue; }
+        if (t[0] == "state") GamaVerifProbe::env_state(*env, std::cout);
+        else {            // on a separate fresh object: must not disturb the object under test
+          Obj F; Problem Pc = *P; Pc.minx_mode = O->rmode; Pc.minx = O->rlist;
+          if (!F.create(&Pc, "env", "solver")) { std::cout << "bad-op\n"; continue; }
+          try { GamaVerifProbe::env_info(*dynamic_cast<GamaVerifProbe::Env*>(F.ls.get()), std::cout); }
+          catch (const MVE& e) { std::cout << "throw " << kind(e.error()) << "\n"; }
+        }
         continue;
       }
       if (!query(*O, t)) std::cout << "bad-op\n";
